@@ -457,7 +457,8 @@ pub fn inject(t: &mut Tape, item: &mut Item, class: usize) -> Option<Expected> {
             // the same rule inside a nested struct: a tuple struct's #[child(zc.0)] member without a name while #[child_parents]
             // says that 'zc.0' is a struct-form type (and 'zc' a tuple-form one: the form of the innermost struct counts)
             let has_child_parents = item.attrs.iter().flat_map(|a| a.instrs()).any(|i| matches!(i, Instr::ChildParents { .. }));
-            let into_like = cps.iter().any(|c| (c.has_into() || c.has_into_existing()) && !cell_all_ret(c));
+            // the rule is due for an Into / IntoExisting conversion whose body is generated (no quick return)
+            let into_like = cps.iter().any(|c| (0..2).any(|f| [OI, RI, OIE, RIE].iter().any(|k| c.cells[f][*k] && !c.ret[f][*k])));
             if matches!(item.body, Body::Struct(Shape::Tuple, _)) && !has_child_parents && into_like && t.coin() {
                 let (cp_attr, _) = spell_one(t, Instr::ChildParents { ded: None, entries: vec![("zc".into(), "Zt".into(), Some(Hint::Tuple)), ("zc . 0".into(), "Zu".into(), Some(Hint::Struct))] });
                 item.attrs.push(cp_attr);
